@@ -28,7 +28,7 @@ pub static DEF: CheckDef = CheckDef {
     id: "C19",
     level: "exploration",
     technique: "deterministic multi-node network simulation with address-flow monitors: real nodes on drawn IPv4/IPv6 listen addresses exchange lookups and stores; every dial at the transport seam, every address string in a DHT reply and every routing-table entry is compared with the true socket address of the peer it names, and the admission counters with the entries they must account for; plus direct round-trip calls (four words, Display/FromStr, serde, malformed strings) on the same drawn addresses",
-    runs: (400, 20000),
+    runs: (1000, 40000),
     generate,
     execute,
     shrink,
